@@ -168,6 +168,32 @@ func (x *psExec) do(g string, op POp) {
 
 func genPSScenario(rng *rand.Rand, profile, mode string) any {
 	sc := &PScenario{Profile: profile, NCtx: 2}
+	if rng.Intn(100) < 30 {
+		// shape: subscribers that leave in the middle of a Send nobody receives from, followed at once by further Sends
+		// (the hand-over of the pings a leaver absorbs, and what the next Send counts)
+		ops := []POp{{K: "nop", N: 2 + rng.Intn(10)}, {K: "send"}, {K: "send"}}
+		if rng.Intn(2) == 0 {
+			ops = append(ops, POp{K: "send"})
+		}
+		sc.Drivers, sc.Names = append(sc.Drivers, ops), append(sc.Names, "P1")
+		if rng.Intn(3) == 0 {
+			sc.Drivers, sc.Names = append(sc.Drivers, []POp{{K: "nop", N: rng.Intn(12)}, {K: "send"}}), append(sc.Names, "P2")
+		}
+		for i, n := 0, 2+rng.Intn(2); i < n; i++ {
+			ops := []POp{{K: "nop", N: rng.Intn(3)}, {K: "sub"}}
+			if i == 2 && rng.Intn(2) == 0 {
+				ops = append(ops, POp{K: "recv"})
+			}
+			ops = append(ops, POp{K: "nop", N: rng.Intn(14)}, POp{K: "unsub"})
+			sc.Drivers, sc.Names = append(sc.Drivers, ops), append(sc.Names, fmt.Sprintf("U%d", i+1))
+		}
+		if rng.Intn(3) == 0 {
+			// a SubscribeContext arriving during those Sends with a context that is being cancelled
+			sc.Drivers, sc.Names = append(sc.Drivers, []POp{{K: "nop", N: rng.Intn(12)}, {K: "subctx", Ctx: 1}}), append(sc.Names, "U9")
+			sc.Drivers, sc.Names = append(sc.Drivers, []POp{{K: "nop", N: rng.Intn(12)}, {K: "cancel", Ctx: 1}}), append(sc.Names, "X1")
+		}
+		return sc
+	}
 	nsend := 1 + rng.Intn(2)
 	nsub := 2 + rng.Intn(2)
 	if mode != "c" {
